@@ -47,6 +47,8 @@ TARGETED = [
     ("gfa2", ["S\tA\t4\t*", "S\tB\t4\t*", "E\te1\tA+\tB+\t2\t4$\t0\t2\t*", "O\to1\tA+", "O\to1\te1+ B+", "U\tu1\to1"]),
     ("gfa2", ["H\tVN:Z:2.0", "X\tfoo\txx:i:1", "S\tA\t4\tACGT", "E\t*\tA+\tA+\t0\t4$\t0\t4$\t4M", "# c"]),
     ("gfa2", ["X\tfoo", "Y\tbar\txx:Z:a", "H\taa:i:1", "# c"]),
+    ("gfa2", ["S\tA\t4\t*", "S\tB\t4\t*", "U\tu1\tA\txx:A:a\tyy:J:[1,2]", "U\tu1\tB"]),
+    ("gfa2", ["S\tA\t4\t*", "E\te1\tA+\tA+\t2\t4$\t0\t2\t*", "O\to1\tA+ e1+\txx:J:[]\tyy:Z:a b", "O\to1\tA+"]),
 ]
 LEVELS = [1, 0, 2, 3]
 
@@ -141,6 +143,14 @@ def norm_line(s):
     pos, tg = f[:i], sorted(f[i:])
     if pos and pos[0] == "U" and len(pos) > 2:
         pos[2] = " ".join(sorted(pos[2].split(" ")))
+    if pos and pos[0] == "L" and len(pos) == 6 and pos[2] in "+-" and pos[4] in "+-":
+        # a link is identified with its complement (lib.wl cannot choose a direction when both forms have the
+        # same ends, e.g. B- -> B+)
+        try:
+            alt = [pos[3], D.inv(pos[4]), pos[1], D.inv(pos[2]), D.cig_compl(pos[5])]
+            pos = ["L"] + min(pos[1:], alt)
+        except Exception:  # noqa
+            pass
     return "\t".join(pos + tg)
 
 
